@@ -40,6 +40,7 @@ func Stress(cfg StressConfig) *Outcome {
 	t0 := time.Now()
 	runtime.GC()
 	base := runtime.NumGoroutine()
+	markLungoBase()
 	w, err := NewWorld(WorldOptions{Sessions: cfg.Actors, Opts: lungo.Options{MinOplogSize: 1 << 22, MaxOplogSize: 1 << 23}})
 	if err != nil {
 		out.viol("C16", "setup", "cannot open engine", err.Error())
